@@ -38,14 +38,18 @@ fn deviation_pair<D: Dimension>(a: &Array<i32, D>, b: &Array<i32, D>) {
     verdict(&a.root_mean_sq_err(b), n, &sa, &sb);
 }
 
+// The verdict depends on the shapes only: contents are concrete (cheap constant propagation) except
+// for one symbolic cell, so that the Ok paths are still executed on data the solver chooses.
 fn mk2(r: usize, c: usize) -> Array2<i32> {
-    Array2::from_shape_fn((r, c), |_| kani::any::<i8>() as i32)
+    let x = kani::any::<i8>() as i32;
+    Array2::from_shape_fn((r, c), |(i, j)| if i + j == 0 { x } else { (3 * i + j) as i32 - 2 })
 }
 fn mk1(n: usize) -> Array1<i32> {
-    Array1::from_shape_fn(n, |_| kani::any::<i8>() as i32)
+    let x = kani::any::<i8>() as i32;
+    Array1::from_shape_fn(n, |i| if i == 0 { x } else { 5 - i as i32 })
 }
 
-//@ prop=C17 tier=quick mem=8 timeout=3000 inst="DeviationExt (9 routines) on Array2<i32>: self x argument over shapes [2,0], [1,2], [2,1], [2,2]" bounds="10 shape pairs incl. equal element count with different shape, symbolic contents; unwind 8"
+//@ prop=C17 tier=quick mem=8 timeout=3000 inst="DeviationExt (9 routines) on Array2<i32>: self x argument over shapes [2,0], [1,2], [2,1], [2,2]" bounds="10 shape pairs incl. equal element count with different shape; one symbolic cell per operand; unwind 8"
 #[kani::proof]
 #[kani::unwind(8)]
 fn c17_deviation_2d_table() {
@@ -78,10 +82,11 @@ fn c17_deviation_1d_table() {
 /// SummaryStatisticsExt: one-argument routines, two-argument routines, per-axis routines (f32,
 /// benign payloads so that no arithmetic overflows; the verdict depends on shapes only).
 fn f2(r: usize, c: usize) -> Array2<f32> {
-    Array2::from_shape_fn((r, c), |_| (kani::any::<u8>() & 7) as f32 + 1.0)
+    let x = (kani::any::<u8>() & 7) as f32 + 1.0;
+    Array2::from_shape_fn((r, c), |(i, j)| if i + j == 0 { x } else { (2 * i + j) as f32 + 1.0 })
 }
 fn f1(n: usize) -> Array1<f32> {
-    Array1::from_shape_fn(n, |_| (kani::any::<u8>() & 7) as f32 + 1.0)
+    Array1::from_shape_fn(n, |i| i as f32 + 1.0)
 }
 
 fn summary_pair(a: &Array2<f32>, w: &Array2<f32>) {
@@ -201,7 +206,8 @@ fn entropy_pair(p: &Array2<f64>, q: &Array2<f64>) {
     verdict_entropy(p.kl_divergence(q), n, &sa, &sb);
 }
 fn g2(r: usize, c: usize) -> Array2<f64> {
-    Array2::from_shape_fn((r, c), |_| (kani::any::<u8>() & 3) as f64 + 1.0)
+    let x = (kani::any::<u8>() & 3) as f64 + 1.0;
+    Array2::from_shape_fn((r, c), |(i, j)| if i + j == 0 { x } else { 1.0 })
 }
 
 //@ prop=C17 tier=quick mem=6 timeout=2400 inst="cross_entropy / kl_divergence on Array2<f64>" bounds="shape pairs over [2,0], [1,2], [2,1], [2,2]; unwind 8"
